@@ -137,8 +137,8 @@ impl Check for C03 {
     fn generate(r: &mut Rng, tier: Tier) -> Case {
         let mut c = gen::draw_cfg(r, tier);
         // triples are kept small so that the isomorphism search stays cheap
-        c.max_extra_nodes = c.max_extra_nodes.min(4);
-        c.max_edges = c.max_edges.min(4);
+        c.max_extra_nodes = c.max_extra_nodes.min(if c.large { 14 } else { 4 });
+        c.max_edges = c.max_edges.min(if c.large { 8 } else { 4 });
         let (f, g, h) = gen::gen_triple(r, &c);
         let (p, q) = gen::gen_pair(r, &c);
         let mut small = c.clone();
